@@ -8,7 +8,9 @@ TrueType and CFF families (vmon/gen/c18_fonts.py) with disjoint or overlapping a
 identical and different duplicate glyphs, clashing glyph names, optional GSUB/GPOS/GDEF under
 different language systems (including a script of the font's own with a REQUIRED feature at FeatureList
 index 0 or later), glyph names that already carry the merger's own ".N" suffixes, CFF inputs subroutinised
-by hand (global only / local only / both); list orders permuted; chained merges merge(merge(A,B),C,...).  The real `Merger.merge` runs under monitors
+by hand (global only / local only / both), TrueType composites and composites of composites in every position,
+format-4-only fonts mixed with fonts that also need a format-12 subtable while sharing BMP characters, left-over
+lookups that no feature references; list orders permuted; chained merges merge(merge(A,B),C,...).  The real `Merger.merge` runs under monitors
 on merge, computeMegaGlyphOrder, computeMegaCmap, every table `merge` method, layoutPre/PostMerge,
 mergeScriptRecords, mapLookups/mapFeatures.
 
